@@ -4,7 +4,8 @@
    documented route yields no document; with enforceSecurityOnAllRoutes a document exists
    only if every route has a non-empty effective security.
    Only statements here; every proof is [exact lemma] (Proofs/SpecProofs.v). *)
-From Gleece Require Import Base.Bytes Model.Project Model.Spec Proofs.SpecProofs.
+From Gleece Require Import Base.Bytes Model.Project Model.Spec Proofs.SpecProofs Model.Security Model.RouterGate
+     Proofs.CrossProofs.
 From Coq Require Import String.
 Open Scope list_scope.
 
@@ -37,6 +38,19 @@ Theorem C04_op_security_complete : forall cfg c m,
   Some (map (fun x => (sc_name x, sc_scopes x)) (effective_security cfg c m)).
 Proof. exact op_security_some. Qed.
 
+(* documented security = enforced security, across the two artifacts: whenever the model emits a
+   document d and a generated routes file passed its translation obligation (router_ok, see C03),
+   every documented operation has a registered handler for the same verb and path whose gate
+   enforces exactly the operation's documented alternatives - same schemes, scopes and order *)
+Theorem C04_documented_equals_enforced : forall (p : project) (d : list operation) (regs : list registration),
+  spec_ops p = Some d -> router_ok p regs = true ->
+  forall o, In o d ->
+  exists c m r, In (c, m) (all_routes p) /\ In r regs /\
+    rg_op_id r = o_id o /\ rg_verb r = o_verb o /\
+    remove_dup_slash (rg_url_lit r) = o_path o /\
+    rg_alts r = map req_to_alt (o_security o).
+Proof. exact documented_equals_enforced. Qed.
+
 (* non-vacuity: security on the method, on the controller and from the default; the enforce
    flag on; a hidden method naming an undeclared scheme; three tampered documents fail *)
 Example C04_nonvacuous :
@@ -57,3 +71,4 @@ Print Assumptions C04_effective_empty_iff.
 Print Assumptions C04_op_security_sound.
 Print Assumptions C04_op_security_complete.
 Print Assumptions C04_nonvacuous.
+Print Assumptions C04_documented_equals_enforced.
